@@ -138,11 +138,15 @@ func definedNames(t tset) []string {
 // each of them renders to.
 type Obs struct {
 	Err  bool
+	Hang bool // the request never returned (watchdog); the provider is not asked again
 	Defs map[string]string
 	Rend map[string]string
 }
 
 func (o Obs) defsLine() string {
+	if o.Hang {
+		return "hang"
+	}
 	if o.Err {
 		return "err"
 	}
@@ -259,17 +263,50 @@ func newProvider(kind string, fs FS, cached bool) provider {
 }
 
 // ask performs one request and observes the answer; a panic is a result.
-func ask(p provider, r ReqSpec) (o Obs, panicked bool) {
-	pan, _ := hx.Guard(func() {
-		t, err := p.call(r)
-		if err != nil {
-			o = Obs{Err: true}
-			return
-		}
-		o = observe(t, r.Exec)
-	})
-	return o, pan
+func ask(p provider, r ReqSpec) (Obs, bool) {
+	if _, bad := hungProviders.Load(p); bad {
+		return Obs{Err: true, Hang: true}, false
+	}
+	type answer struct {
+		o   Obs
+		pan bool
+	}
+	ch := make(chan answer, 1)
+	go func() {
+		var a answer
+		a.pan, _ = hx.Guard(func() {
+			t, err := p.call(r)
+			if err != nil {
+				a.o = Obs{Err: true}
+				return
+			}
+			a.o = observe(t, r.Exec)
+		})
+		ch <- a
+	}()
+	// a request that never returns (a lock left behind by an earlier request of this provider) is a result,
+	// not the end of the driver: generous watchdog for the first one of a process, short afterwards
+	wd := 20 * time.Second
+	if ms, err := strconv.Atoi(os.Getenv("TMPL_WATCHDOG_MS")); err == nil && ms > 0 {
+		wd = time.Duration(ms) * time.Millisecond // only set by the check while it minimises a failing block
+	}
+	if atomic.LoadInt32(&askHangs) > 0 {
+		wd = 2 * time.Second
+	}
+	select {
+	case a := <-ch:
+		return a.o, a.pan
+	case <-time.After(wd):
+		atomic.AddInt32(&askHangs, 1)
+		hungProviders.Store(p, true)
+		return Obs{Err: true, Hang: true}, false
+	}
 }
+
+var (
+	askHangs      int32
+	hungProviders sync.Map
+)
 
 // ---------------------------------------------------------------- reference renderer
 
@@ -762,6 +799,9 @@ func drive() {
 		// driver with it: generous watchdog for the first one, a short one afterwards (the property has
 		// failed on that request already); a request after a hang runs on a poisoned provider until `new`
 		wd := 20 * time.Second
+		if ms, err := strconv.Atoi(os.Getenv("TMPL_WATCHDOG_MS")); err == nil && ms > 0 {
+			wd = time.Duration(ms) * time.Millisecond // only set by the check while it minimises a failing block
+		}
 		if driveHangs > 0 {
 			wd = 2 * time.Second
 		}
